@@ -35,8 +35,9 @@ from vf import c13_sets as S
 PID = 'C13'
 LEVEL = 'exploration'
 RULE = ('full product nmesh {4,5,6,8} x cell size {1,250} x {TSC,CIC} x compensated x interlaced x {linear nmesh bins, log 4 bins} x '
-        'mubins {None,3} x poles {None,[0,2]} x {float32,float64 positions+field} (quick: a strength-2 covering of the binning '
-        'options, cell size alternating, float64 only for nmesh 5 and 8); inside each configuration every particle set of the tier '
+        'mubins {None,3} x poles {None,[0,2]} x {float32 positions+field, float64 positions+field, float64 positions on a float32 field} '
+        '(quick: a strength-2 covering of the binning options, cell size alternating, float64 positions only for nmesh 5 and 8 with one '
+        'binning each); inside each configuration every particle set of the tier '
         '(N = 1,1,2,7,24 (+second variants in thorough), weighted and unweighted) x every transformation: repeat, 3 generating '
         'permutations, translation by every k=1..nmesh cells on each axis + 1 diagonal, nthread {1,2,5,16} each twice, '
         'pos2=pos same object / copy / permuted copy. One real calc_power call per (set, transformation). '
@@ -54,7 +55,7 @@ ASSUMPTIONS = [
 ]
 CHUNK = 1
 WORKERS = 8
-ENVS = {'f8': {}}      # float64 cases get their own worker pool: each pool compiles only its own numba specialisations
+ENVS = {'f8': {}}      # float64-position cases get their own worker pool: each pool compiles only its own numba specialisations
 
 TOL = {'float32': 3e-5, 'float64': 1e-11}
 FLOOR_LIMIT = 3e-6
@@ -73,7 +74,7 @@ EXACT_COLS = ('N_mode', 'N_mode_poles', 'k_min', 'k_max', 'k_mid', 'mu_min', 'mu
 def BOUNDS(tier):
     return dict(nmesh=NMESH, cell_sizes=CELLS, paste=['TSC', 'CIC'], compensated=[0, 1], interlaced=[0, 1],
                 binnings='(logk,mubins,poles[0,2]) ' + str(BINNINGS if tier != 'quick' else COVER),
-                dtypes=['float32', 'float64'], nthread=[1] + THREADS,
+                dtypes=['pos float32/field float32', 'pos float64/field float64', 'pos float64/field float32'], nthread=[1] + THREADS,
                 particle_sets=SETS_QUICK if tier == 'quick' else SETS_THOROUGH,
                 coordinate_alphabet_cells=[str(a) for a in S.alphabet_desc()], tol=TOL, floor_limit=FLOOR_LIMIT, tier=tier)
 
@@ -82,23 +83,21 @@ def cases(tier, seed):
     quick = tier == 'quick'
     sets = SETS_QUICK if quick else SETS_THOROUGH
     n = 0
-    for dt in ('f4', 'f8'):
+    for dt in ('f4', 'f8', 'f84'):
         for g in NMESH:
-            if quick and dt == 'f8' and g not in (5, 8):
+            if quick and dt != 'f4' and g not in (5, 8):
                 continue
             for paste in ('TSC', 'CIC'):
                 for comp in (0, 1):
                     for il in (0, 1):
                         rows = BINNINGS
                         if quick:
-                            rows = COVER if dt == 'f4' else [COVER[(n + seed) % 4], COVER[(n + seed + 2) % 4]]
+                            rows = COVER if dt == 'f4' else [COVER[(n + seed + (dt == 'f84')) % 4]]
                         for lk, mb, pl in rows:
-                            for h in CELLS:
-                                n += 1
-                                if quick and (n + seed) % 2:
-                                    continue
+                            n += 1
+                            for h in (CELLS if not quick else [CELLS[(n + n // 4 + seed) % 2]]):
                                 c = dict(g=g, h=h, paste=paste, comp=comp, il=il, logk=lk, mubins=mb, poles=pl, dt=dt, sets=sets)
-                                if dt == 'f8':
+                                if dt != 'f4':
                                     c['env'] = 'f8'
                                 yield c
 
@@ -142,7 +141,7 @@ def call(c, pos, w, nthread, pos2=None, w2=None):
     kw = dict(kbins=(4 if c['logk'] else None), mubins=(c['mubins'] or None), logk=bool(c['logk']), paste=c['paste'], nmesh=g,
               compensated=bool(c['comp']), interlaced=bool(c['il']), w=w, pos2=pos2, w2=w2,
               poles=([0, 2] if c['poles'] else None), nthread=nthread,
-              dtype=(np.float32 if c['dt'] == 'f4' else np.float64))
+              dtype=(np.float64 if c['dt'] == 'f8' else np.float32))
     return Res(_PS.calc_power(pos, g * c['h'], **kw))
 
 
@@ -160,7 +159,7 @@ def digest(r):
 
 def run(c):
     g, h = c['g'], c['h']
-    fdt = np.float32 if c['dt'] == 'f4' else np.float64
+    fdt = np.float32 if c['dt'] == 'f4' else np.float64      # dtype of positions and weights
     key = cfgkey(c)
     sigtail = f"{c['paste']}:{'il' if c['il'] else 'nil'}"
     probs, nt = [], []
@@ -360,13 +359,15 @@ def run(c):
         if sample is None and ps.n == 7:
             sample = dict(config=key, particle_set=sname, positions_in_cells=ps.cells_str(), weights=None if w0 is None else w0.tolist(),
                           power=base.cols['power'].ravel()[:6].tolist(), N_mode=base.cols['N_mode'].ravel()[:6].tolist(),
-                          floors_this_case={k: v for k, v in floors.items()})
+                          poles=(base.cols['poles'][:3].tolist() if 'poles' in base.cols else None),
+                          largest_deviation_by_class={k.split('_')[1]: float(f'{v:.3g}') for k, v in floors.items()})
 
     evals = sum(v for k, v in cnt.items() if k.startswith('calls_'))
     extra = dict(cnt)
     extra['frames'] = [framekey(c) + '#' + digest(frame)]
     extra['output_dtypes'] = sorted(outd)
-    show_sample = sample if (c['g'] == 8 and c['comp'] and c['logk'] == 0 and c['mubins'] == 0 and c['h'] == 1.0) else None
+    show_sample = sample if (c['comp'] and c['poles'] and (c['g'], c['paste'], c['il'], c['dt']) in
+                             ((8, 'TSC', 1, 'f4'), (5, 'CIC', 0, 'f4'), (6, 'TSC', 0, 'f4'), (8, 'CIC', 1, 'f84'), (5, 'TSC', 1, 'f8'))) else None
     return dict(problems=probs, evals=evals, nt=nt, extra=extra, max=floors, sample=show_sample)
 
 
